@@ -24,4 +24,22 @@ Taint(t, i) == CASE i.op = "set"  -> t \ {i.r}
                  [] i.op = "add"  -> IF i.s \in t \/ i.r \in t THEN t \cup {i.r} ELSE t
 \* what an observer of the explicit state may compare
 Agree(a, b) == a = b
+
+(***************************************************************************)
+(* The general rule, independent of the instruction set: an instruction is *)
+(* summarised by the locations it READS (registers - also those used to    *)
+(* form addresses -, flag bits, "mem"), the locations it overwrites        *)
+(* completely (wfull) and the ones it may leave partly or conditionally    *)
+(* as they were (wpart: 8/16-bit register writes, read-modify-write,       *)
+(* conditional moves, a store into memory).  `both` = the instruction      *)
+(* completed on both machines (a refused instruction writes nothing).      *)
+(***************************************************************************)
+Clean(t, s) == s.reads \cap t = {}
+TaintG(t, s, both) ==
+  IF Clean(t, s) THEN (IF both THEN t \ s.wfull ELSE t)
+  ELSE t \cup s.wfull \cup s.wpart
+\* the summaries of the small machine above
+Summ(i) == CASE i.op = "set"  -> [reads |-> {},         wfull |-> {i.r}, wpart |-> {}]
+             [] i.op = "copy" -> [reads |-> {i.s},      wfull |-> {i.r}, wpart |-> {}]
+             [] i.op = "add"  -> [reads |-> {i.r, i.s}, wfull |-> {},    wpart |-> {i.r}]
 =============================================================================
